@@ -131,4 +131,142 @@ theorem parseMode_names :
 example : pairedEval .xor (cliPredicate exO exOpts) exR5 (some exR2) = some true := by
   rw [paired_grep_exact exO exOpts .xor exR5 exR2 (by simp [exOpts]) (by simp [exOpts])]; decide
 
+/-! ## 3. kept / discarded streams (`CLIFilterSequence`), from the stream theorems of C03
+
+Records of the stream model are their rank in the input; `tbl` gives the content of each.  `keep` is the
+Boolean the real `DivideOn` / `FilterOn` gets from the predicate (nil = keep everything). -/
+
+/-- the verdict `CLIFilterSequence` uses on unpaired input, as a function of the rank -/
+def keepAt (O : Grep.Oracles) (o : GrepOpts) (tbl : Nat → Grep.Rec) (i : Nat) : Bool :=
+  (cliPredicate O o).eval (tbl i) == some true
+
+theorem keepAt_eq (O : Grep.Oracles) (o : GrepOpts) (tbl : Nat → Grep.Rec)
+    (hE : ∀ i, ∀ e ∈ o.predicates, (O.evalBool e (tbl i)).isSome) :
+    keepAt O o tbl = fun i => selects O o (tbl i) != o.invert := by
+  funext i
+  simp [keepAt, grep_exact O o (tbl i) (hE i)]
+
+open ObiVerif.Iter ObiVerif.Props.C03 in
+/-- `--save-discarded`: for every partition of the input into batches and every arrival order, the
+kept stream is the input filtered by "satisfies every requested criterion (xor -v)", the discarded
+stream is the input filtered by the negation, both in input order and numbered 0,1,2,…; together they
+are a permutation of the input (nothing lost, nothing duplicated) -/
+theorem grep_partition (O : Grep.Oracles) (o : GrepOpts) (tbl : Nat → Grep.Rec)
+    (hE : ∀ i, ∀ e ∈ o.predicates, (O.evalBool e (tbl i)).isSome)
+    (size : Nat) (hsize : 0 < size) (v : Nat → List Nat) (n : Nat) (ks : List Nat)
+    (hp : ks.Perm (List.range n)) :
+    let kept := (divideOn (keepAt O o tbl) size (ks.map fun k => (k, v k))).1
+    let disc := (divideOn (keepAt O o tbl) size (ks.map fun k => (k, v k))).2
+    Numbered kept ∧ Numbered disc ∧
+    flatten kept = (inFlat v n).filter (fun i => selects O o (tbl i) != o.invert) ∧
+    flatten disc = (inFlat v n).filter (fun i => !(selects O o (tbl i) != o.invert)) ∧
+    (flatten kept ++ flatten disc).Perm (inFlat v n) := by
+  intro kept disc
+  obtain ⟨h1, h2, h3, h4, _⟩ := divideOn_spec (keepAt O o tbl) size hsize v n ks hp
+  have hk := keepAt_eq O o tbl hE
+  have e3 : flatten kept = (inFlat v n).filter (fun i => selects O o (tbl i) != o.invert) :=
+    h3.trans (by rw [hk])
+  have e4 : flatten disc = (inFlat v n).filter (fun i => !(selects O o (tbl i) != o.invert)) :=
+    h4.trans (by rw [hk])
+  refine ⟨h1, h2, e3, e4, ?_⟩
+  rw [e3, e4]
+  exact List.filter_append_perm _ _
+
+open ObiVerif.Iter ObiVerif.Props.C03 in
+/-- without `--save-discarded` (`FilterOn`, any number of workers): the output is the input filtered,
+in input order -/
+theorem grep_filter (O : Grep.Oracles) (o : GrepOpts) (tbl : Nat → Grep.Rec)
+    (hE : ∀ i, ∀ e ∈ o.predicates, (O.evalBool e (tbl i)).isSome)
+    (size : Nat) (hsize : 0 < size) (v : Nat → List Nat) (n : Nat) (ks : List Nat)
+    (hp : ks.Perm (List.range n)) :
+    let out := filterOn (keepAt O o tbl) size (ks.map fun k => (k, v k))
+    Numbered out ∧ flatten out = (inFlat v n).filter (fun i => selects O o (tbl i) != o.invert) := by
+  intro out
+  obtain ⟨h1, h2, _⟩ := filterOn_spec (keepAt O o tbl) size hsize v n ks hp
+  exact ⟨h1, h2.trans (by rw [keepAt_eq O o tbl hE])⟩
+
+open ObiVerif.Iter ObiVerif.Props.C03 in
+/-- paired input: a pair is one element of the stream (`PairTo` links the i-th records, C03
+`pairTo_spec`) and is kept or discarded as a whole; the R1 and R2 files are written from the same
+list of pairs, so the mates are at the same rank in both -/
+theorem mates_stay_paired (O : Grep.Oracles) (o : GrepOpts) (m : Mode) (fwd rev : Nat → Grep.Rec)
+    (hE : ∀ i, ∀ e ∈ o.predicates, (O.evalBool e (fwd i)).isSome ∧ (O.evalBool e (rev i)).isSome)
+    (size : Nat) (hsize : 0 < size) (v : Nat → List Nat) (n : Nat) (ks : List Nat)
+    (hp : ks.Perm (List.range n)) :
+    let keep := fun i => pairedEval m (cliPredicate O o) (fwd i) (some (rev i)) == some true
+    let kept := flatten (divideOn keep size (ks.map fun k => (k, v k))).1
+    let disc := flatten (divideOn keep size (ks.map fun k => (k, v k))).2
+    let sel := fun i => truthTable m (selects O o (fwd i) != o.invert) (selects O o (rev i) != o.invert)
+    kept = (inFlat v n).filter sel ∧ disc = (inFlat v n).filter (fun i => !sel i) ∧
+    (kept.map fwd).zip (kept.map rev) = kept.map (fun i => (fwd i, rev i)) ∧
+    (disc.map fwd).zip (disc.map rev) = disc.map (fun i => (fwd i, rev i)) ∧
+    (kept ++ disc).Perm (inFlat v n) := by
+  intro keep kept disc sel
+  have hk : keep = sel := by
+    funext i
+    simp [keep, sel, paired_grep_exact O o m (fwd i) (rev i) (fun e he => (hE i e he).1) (fun e he => (hE i e he).2)]
+  obtain ⟨_, _, h3, h4, _⟩ := divideOn_spec keep size hsize v n ks hp
+  have e3 : kept = (inFlat v n).filter sel := h3.trans (by rw [hk])
+  have e4 : disc = (inFlat v n).filter (fun i => !sel i) := h4.trans (by rw [hk])
+  refine ⟨e3, e4, ?_, ?_, ?_⟩
+  · simp [List.zip_map']
+  · simp [List.zip_map']
+  · rw [e3, e4]; exact List.filter_append_perm _ _
+
+open ObiVerif.Iter ObiVerif.Props.C03 in
+/-- obimultiplex, unidentified reads (`DivideOn(HasAttribute("obimultiplex_error"))`): every record
+goes to exactly one of the two outputs, chosen from the record alone, in input order -/
+theorem unidentified_partition (tbl : Nat → Grep.Rec)
+    (size : Nat) (hsize : 0 < size) (v : Nat → List Nat) (n : Nat) (ks : List Nat)
+    (hp : ks.Perm (List.range n)) :
+    let isErr := fun i => hasAttr "obimultiplex_error" (tbl i)
+    let unid := flatten (divideOn isErr size (ks.map fun k => (k, v k))).1
+    let out := flatten (divideOn isErr size (ks.map fun k => (k, v k))).2
+    unid = (inFlat v n).filter isErr ∧ out = (inFlat v n).filter (fun i => !isErr i) ∧
+    (unid ++ out).Perm (inFlat v n) := by
+  intro isErr unid out
+  obtain ⟨_, _, h3, h4, _⟩ := divideOn_spec isErr size hsize v n ks hp
+  have e3 : unid = _ := h3
+  have e4 : out = _ := h4
+  exact ⟨e3, e4, by rw [e3, e4]; exact List.filter_append_perm _ _⟩
+
+/-! ## 4. obidistribute -/
+
+open ObiVerif.Iter ObiVerif.Props.C03 in
+/-- `obidistribute -c key1 [-d key2]`: the class of a record is `dualClass` — a function of the record
+alone —, the classifier numbers the classes by any injective `code`; the stream of a class holds
+exactly the records of that class, in input order, each as often as it occurs in the input, and a
+record occurs in no other stream -/
+theorem distribute_partition (key1 key2 na : String) (tbl : Nat → Grep.Rec)
+    (code : String × String → Nat) (hinj : ∀ a b, code a = code b → a = b)
+    (size : Nat) (hsize : 0 < size) (v : Nat → List Nat) (n : Nat) (ks : List Nat)
+    (hp : ks.Perm (List.range n)) (c : String × String) :
+    let cls := fun i => code (dualClass key1 key2 na (tbl i))
+    let out := distributeKey cls size (code c) (ks.map fun k => (k, v k))
+    Numbered out ∧
+    flatten out = (inFlat v n).filter (fun i => dualClass key1 key2 na (tbl i) == c) ∧
+    ∀ i, (flatten out).count i = if dualClass key1 key2 na (tbl i) = c then (inFlat v n).count i else 0 := by
+  intro cls out
+  obtain ⟨h1, h2, _⟩ := distribute_spec cls size hsize v n ks hp (code c)
+  have hr := distribute_routing cls size hsize v n ks hp (code c)
+  have hc : ∀ i, (cls i == code c) = (dualClass key1 key2 na (tbl i) == c) := by
+    intro i
+    by_cases h : dualClass key1 key2 na (tbl i) = c
+    · simp [cls, h]
+    · have : code (dualClass key1 key2 na (tbl i)) ≠ code c := fun e => h (hinj _ _ e)
+      show (code (dualClass key1 key2 na (tbl i)) == code c) = (dualClass key1 key2 na (tbl i) == c)
+      rw [beq_eq_false_iff_ne.mpr this, beq_eq_false_iff_ne.mpr h]
+  refine ⟨h1, ?_, ?_⟩
+  · rw [h2]; congr 1; funext i; exact hc i
+  · intro i
+    rw [hr i]
+    by_cases h : dualClass key1 key2 na (tbl i) = c
+    · simp [cls, h]
+    · have : code (dualClass key1 key2 na (tbl i)) ≠ code c := fun e => h (hinj _ _ e)
+      simp [cls, h, this]
+
+/-- test: the class of a record without the classifier tag is the NA value -/
+example : dualClass "sample" "" "NA" exR5 = ("NA", "") ∧
+    dualClass "count" "dir" "NA" exR5 = ("5", "NA") := by decide
+
 end ObiVerif.Props.C16
